@@ -1,8 +1,8 @@
 package main
 
 import (
-	"io"
 	"fmt"
+	"io"
 	"net/http"
 	"net/http/httptest"
 	"sort"
@@ -334,7 +334,7 @@ func runFront(q frontReq, body string) string {
 		rec := httptest.NewRecorder()
 		mutated := false
 		nilObject := false // the backend was handed a nil calendar / card
-		altered := false // a backend call carried a path that is neither the request path nor one of the backend's own
+		altered := false   // a backend call carried a path that is neither the request path nor one of the backend's own
 		switch q.srv {
 		case "cal":
 			px := q.prefix
